@@ -11,6 +11,7 @@ From Coba Require C13.Run.
 From Coba Require C14.Run.
 From Coba Require C15.Run.
 From Coba Require C16.Run.
+From Coba Require C10.Run.
 Open Scope Z_scope.
 
 Definition dispatch (op : Z) (x : sx) : sx :=
@@ -25,5 +26,6 @@ Definition dispatch (op : Z) (x : sx) : sx :=
   | 14 => C14.Run.run x
   | 15 => C15.Run.run x
   | 16 => C16.Run.run x
+  | 10 => C10.Run.run x
   | _ => err 98
   end.
